@@ -5,27 +5,6 @@ From Flocq Require Import Core BinarySingleNaN.
 Require Import Reals Lra.
 Set Implicit Arguments.
 
-Lemma zipk_map2 A B (f : A -> B -> A) l1 l2 :
-  length l1 <= length l2 -> zipk f l1 l2 = map2 f l1 l2.
-Proof.
-  revert l2; induction l1 as [|x l1 IH]; intros l2 H; [destruct l2; reflexivity|].
-  destruct l2 as [|y l2]; [simpl in H; lia|]. simpl. rewrite IH; [reflexivity|simpl in H; lia].
-Qed.
-
-Lemma zipk_length A B (f : A -> B -> A) l1 l2 : length (zipk f l1 l2) = length l1.
-Proof.
-  revert l2; induction l1 as [|x l1 IH]; intros l2; [destruct l2; reflexivity|].
-  destruct l2; simpl; [reflexivity|rewrite IH; reflexivity].
-Qed.
-
-Lemma zipk_nth A B (f : A -> B -> A) l1 l2 i da db :
-  i < length l1 -> i < length l2 -> nth i (zipk f l1 l2) da = f (nth i l1 da) (nth i l2 db).
-Proof.
-  revert l2 i; induction l1 as [|x l1 IH]; intros l2 i H1 H2; [simpl in H1; lia|].
-  destruct l2 as [|y l2]; [simpl in H2; lia|]. destruct i as [|i]; simpl; [reflexivity|].
-  apply IH; simpl in *; lia.
-Qed.
-
 Section C15.
   Variable N : Num.
   Notation T := (T N).
